@@ -1,4 +1,5 @@
 import PlatypusModel.Model.Gray
+import PlatypusModel.Model.Dominance
 /-! Wire codecs for the line protocol (tokens separated by single spaces). -/
 namespace Wire
 
@@ -59,5 +60,49 @@ def run {α} (p : P α) (toks : List String) : Except String α :=
   | .ok (a, []) => .ok a
   | .ok (_, _) => .error "bad-op"
   | .error e => .error e
+
+end Wire
+
+namespace Wire
+open Platypus
+
+def rat : P Rat := do
+  let t ← tok
+  match t.splitOn "/" with
+  | [n] => match n.toInt? with
+    | some i => pure (i : Rat)
+    | none => throw "bad-op"
+  | [n, d] => match n.toInt?, d.toNat? with
+    | some i, some k => if k = 0 then throw "bad-op" else pure (mkRat i k)
+    | _, _ => throw "bad-op"
+  | _ => throw "bad-op"
+
+def showRat (q : Rat) : String :=
+  if q.den = 1 then toString q.num else s!"{q.num}/{q.den}"
+
+end Wire
+
+namespace Wire
+open Platypus
+
+def erat : P ERat := do
+  let st ← get
+  match st with
+  | "inf" :: ts => set ts; pure ERat.pinf
+  | "-inf" :: ts => set ts; pure ERat.ninf
+  | _ => do let q ← rat; pure (ERat.fin q)
+
+def showERat : ERat → String
+  | .ninf => "-inf"
+  | .pinf => "inf"
+  | .fin q => showRat q
+
+/-- `id cv n o1 … on` -/
+def solE : P (Sol ERat) := do
+  let id ← nat; let cv ← erat; let objs ← list erat
+  pure { id := id, objs := objs, cv := cv }
+
+def showIds (l : List Nat) : String :=
+  if l.isEmpty then "-" else ",".intercalate (l.map toString)
 
 end Wire
